@@ -31,27 +31,30 @@ type EngineRequest struct {
 	UseRunWorkflow  bool         `json:"use_run_workflow,omitempty"`
 	RelativeContext bool         `json:"relative_context,omitempty"`
 	Chdir           string       `json:"chdir,omitempty"` // "" | "scratch" | "elsewhere"
-	InMemory        bool         `json:"in_memory,omitempty"`
-	ExtraInMemory   []string     `json:"extra_in_memory,omitempty"` // additional files put into the cache up front
-	WatchdogMs      int          `json:"watchdog_ms,omitempty"`
+	// ChdirAfterLoad changes the working directory after the file context was created and loaded
+	// (before Parse): "" | "elsewhere"
+	ChdirAfterLoad string   `json:"chdir_after_load,omitempty"`
+	InMemory       bool     `json:"in_memory,omitempty"`
+	ExtraInMemory  []string `json:"extra_in_memory,omitempty"` // additional files put into the cache up front
+	WatchdogMs     int      `json:"watchdog_ms,omitempty"`
 }
 
 // EngineAnswer is the reply.
 type EngineAnswer struct {
-	ParseErr      string    `json:"parse_err,omitempty"`
-	ParsePanic    string    `json:"parse_panic,omitempty"`
-	Returned      *Returned `json:"returned,omitempty"`
-	OutputIsError bool      `json:"output_is_error,omitempty"`
-	RunPanic      string    `json:"run_panic,omitempty"`
-	Hang          []string  `json:"hang,omitempty"`
-	HangPhase     string    `json:"hang_phase,omitempty"`
-	Deploys       int64     `json:"deploys"`
-	Closes        int64     `json:"closes"`
-	Leaks         []Leak    `json:"leaks,omitempty"`
+	ParseErr      string          `json:"parse_err,omitempty"`
+	ParsePanic    string          `json:"parse_panic,omitempty"`
+	Returned      *Returned       `json:"returned,omitempty"`
+	OutputIsError bool            `json:"output_is_error,omitempty"`
+	RunPanic      string          `json:"run_panic,omitempty"`
+	Hang          []string        `json:"hang,omitempty"`
+	HangPhase     string          `json:"hang_phase,omitempty"`
+	Deploys       int64           `json:"deploys"`
+	Closes        int64           `json:"closes"`
+	Leaks         []Leak          `json:"leaks,omitempty"`
 	OutputErrFlag map[string]bool `json:"output_err_flags,omitempty"`
-	WallMs        float64   `json:"wall_ms"`
-	ProcessDeath  string    `json:"process_death,omitempty"`
-	HarnessErr    string    `json:"harness_err,omitempty"`
+	WallMs        float64         `json:"wall_ms"`
+	ProcessDeath  string          `json:"process_death,omitempty"`
+	HarnessErr    string          `json:"harness_err,omitempty"`
 }
 
 var scratchCounter int
@@ -152,6 +155,9 @@ func SetupEngine(req *EngineRequest) (setup *EngineSetup, parseErr string, harne
 		return setup, "load context: " + err.Error(), ""
 	}
 	setup.FileCtx = fc
+	if req.ChdirAfterLoad == "elsewhere" {
+		_ = os.Chdir(elsewhere)
+	}
 	return setup, "", ""
 }
 
